@@ -1132,6 +1132,12 @@ pub fn run(ctx: &Ctx) {
         return;
     }
     let thorough = ctx.tier_thorough;
+    {
+        // observation outside the property (nothing is reported through it): what BoxEntry::inner() gives access to
+        let b = BoxEntry::new(mk_plain(&rep_script(), &vec![]));
+        let ok = b.inner().downcast_ref::<SE<PV>>().is_some();
+        out.notes.push(format!("BoxEntry::inner() can be downcast to the boxed entry's type: {ok}"));
+    }
     // (a) every buildable chain of entry wrappers (up to 3 layers; a BoxEntry at least every third) over representative bases
     let menu = entry_menu();
     let bases = [rep_plain(), ETree::Merged(Box::new(rep_other()), Box::new(ETree::Boxed(Box::new(rep_plain())))),
